@@ -27,6 +27,8 @@ type Thread struct {
 	obj     int
 	enabled func() bool
 	done    bool
+
+	children int
 }
 
 // Point is one recorded decision of an execution.
@@ -55,6 +57,16 @@ type Options struct {
 	Horizon    int  // maximum number of scheduling steps (0 = 200000)
 	HashStates bool // collect abstract state hashes after every step
 	Watchdog   time.Duration
+	// PreemptKinds, if non-nil, restricts where a runnable thread may be
+	// preempted: only at its operations of these kinds (all other
+	// operations of a runnable thread continue without a choice point).
+	PreemptKinds map[string]bool
+	// Priority, if non-nil, orders the default choice among the threads that
+	// could run when the running thread cannot continue: higher priority
+	// first, ties by ascending thread id. It models relative speeds of
+	// parties / thread roles as different deterministic baseline schedules.
+	// Threads started by the code under test inherit "<parent name>/<n>".
+	Priority func(name string) int
 }
 
 // Exec is the state of the running execution.
@@ -237,10 +249,17 @@ func (e *Exec) schedule(self *Thread) {
 	if !self.done && self.isEnabled() {
 		en = append(en, self)
 	}
+	first := len(en)
 	for _, t := range e.threads {
 		if t != self && !t.done && t.isEnabled() {
 			en = append(en, t)
 		}
+	}
+	if e.opts.Priority != nil && len(en)-first > 1 {
+		rest := en[first:]
+		sort.SliceStable(rest, func(i, j int) bool {
+			return e.opts.Priority(rest[i].Name) > e.opts.Priority(rest[j].Name)
+		})
 	}
 	if e.opts.HashStates {
 		e.states = append(e.states, e.hashState())
@@ -265,7 +284,11 @@ func (e *Exec) schedule(self *Thread) {
 	choice := 0
 	if len(en) > 1 {
 		preempt := en[0] == self
-		choice = e.nextChoice(len(en), false, preempt, "")
+		if preempt && e.opts.PreemptKinds != nil && !e.opts.PreemptKinds[self.kind] {
+			// not a preemption point for this exploration: keep running
+		} else {
+			choice = e.nextChoice(len(en), false, preempt, "")
+		}
 	}
 	next := en[choice]
 	if next == self {
@@ -325,6 +348,10 @@ func Go(f func()) {
 func GoNamed(name string, f func()) {
 	e := must()
 	self := e.cur
+	if name == "" {
+		self.children++
+		name = fmt.Sprintf("%s/%d", self.Name, self.children)
+	}
 	e.newThread(name, f)
 	sp(e, self, "spawn", 0, nil)
 }
